@@ -69,6 +69,7 @@ func registerSyncIntrinsics(reg regFn) {
 			v := ps.free[pick]
 			ps.free = append(ps.free[:pick:pick], ps.free[pick+1:]...)
 			markPooled(v, false)
+			in.raceAcquire(p) // Put happens before the Get that returns the object
 			return v
 		}
 		newFn := load(structField(p, "New")).(*Closure)
@@ -90,6 +91,7 @@ func registerSyncIntrinsics(reg regFn) {
 		}
 		markPooled(iv, true)
 		ps.free = append(ps.free, iv)
+		in.raceRelease(p)
 		return nil
 	})
 	lock := func(write bool) intrinsic {
@@ -112,6 +114,7 @@ func registerSyncIntrinsics(reg regFn) {
 				}
 				m.readers++
 			}
+			in.raceAcquire(a[0])
 			return nil
 		}
 	}
@@ -126,6 +129,7 @@ func registerSyncIntrinsics(reg regFn) {
 			} else {
 				m.readers--
 			}
+			in.raceRelease(a[0])
 			in.ensureSched().yield("unlock:" + site)
 			return nil
 		}
@@ -146,14 +150,17 @@ func registerSyncIntrinsics(reg regFn) {
 			return tFalse
 		}
 		m.held = true
+		in.raceAcquire(a[0])
 		return tTrue
 	})
 	reg("(*sync.Once).Do", func(in *Interp, fr *frame, fn *ssa.Function, a []Value, site string) Value {
 		if syncSt.onces[a[0]] {
+			in.raceAcquire(a[0])
 			return nil
 		}
 		syncSt.onces[a[0]] = true
 		in.call(fr, a[1], nil, nil, site)
+		in.raceRelease(a[0])
 		return nil
 	})
 	reg("(*sync.WaitGroup).Add", func(in *Interp, fr *frame, fn *ssa.Function, a []Value, site string) Value {
@@ -183,15 +190,18 @@ func registerSyncIntrinsics(reg regFn) {
 		if *c < 0 {
 			panic(targetPanic{runtime: "sync: negative WaitGroup counter", site: site})
 		}
+		in.raceRelease(a[0])
 		in.ensureSched().yield("wg.Done:" + site)
 		return nil
 	})
 	reg("(*sync.WaitGroup).Wait", func(in *Interp, fr *frame, fn *ssa.Function, a []Value, site string) Value {
 		c := syncSt.wgs[a[0]]
 		if c == nil || *c == 0 {
+			in.raceAcquire(a[0])
 			return nil
 		}
 		in.ensureSched().block(func() bool { return *c == 0 }, "WaitGroup.Wait at "+site)
+		in.raceAcquire(a[0])
 		return nil
 	})
 
@@ -205,19 +215,77 @@ func registerSyncIntrinsics(reg regFn) {
 	}
 	reg("(*sync/atomic.Value).Load", func(in *Interp, fr *frame, fn *ssa.Function, a []Value, site string) Value {
 		in.ensureSched().yield("atomic:" + site)
+		in.raceAtomic(avField(a, site), false, site)
 		return load(avField(a, site))
 	})
 	reg("(*sync/atomic.Value).Store", func(in *Interp, fr *frame, fn *ssa.Function, a []Value, site string) Value {
 		in.ensureSched().yield("atomic:" + site)
+		in.raceAtomic(avField(a, site), true, site)
 		store(avField(a, site), a[1])
 		return nil
 	})
 	reg("(*sync/atomic.Value).Swap", func(in *Interp, fr *frame, fn *ssa.Function, a []Value, site string) Value {
 		in.ensureSched().yield("atomic:" + site)
 		f := avField(a, site)
+		in.raceAtomic(f, true, site)
 		old := load(f)
 		store(f, a[1])
 		return old
+	})
+
+	// sync/atomic.Pointer[T]: the pointer is kept in field v (index 2: _ noCopy-ish fields precede it)
+	apField := func(a []Value, site string) Loc {
+		sl, ok := a[0].(*StructLoc)
+		if !ok {
+			panic(targetPanic{runtime: "invalid memory address or nil pointer dereference (nil *atomic.Pointer)", site: site})
+		}
+		return sl.fields[len(sl.fields)-1]
+	}
+	apGet := func(l Loc) Value {
+		v := load(l)
+		if v == nil {
+			return NilLoc{}
+		}
+		if t, ok := v.(*Term); ok && t.IsConst() && t.c == 0 {
+			return NilLoc{}
+		}
+		return v
+	}
+	reg("(*sync/atomic.Pointer[T]).Load", func(in *Interp, fr *frame, fn *ssa.Function, a []Value, site string) Value {
+		in.ensureSched().yield("atomic:" + site)
+		f := apField(a, site)
+		in.raceAtomic(f, false, site)
+		return apGet(f)
+	})
+	reg("(*sync/atomic.Pointer[T]).Store", func(in *Interp, fr *frame, fn *ssa.Function, a []Value, site string) Value {
+		in.ensureSched().yield("atomic:" + site)
+		f := apField(a, site)
+		in.raceAtomic(f, true, site)
+		if c, ok := f.(*Cell); ok {
+			c.v = a[1]
+		} else {
+			store(f, a[1])
+		}
+		return nil
+	})
+	reg("(*sync/atomic.Pointer[T]).Swap", func(in *Interp, fr *frame, fn *ssa.Function, a []Value, site string) Value {
+		in.ensureSched().yield("atomic:" + site)
+		f := apField(a, site)
+		in.raceAtomic(f, true, site)
+		old := apGet(f)
+		f.(*Cell).v = a[1]
+		return old
+	})
+	reg("(*sync/atomic.Pointer[T]).CompareAndSwap", func(in *Interp, fr *frame, fn *ssa.Function, a []Value, site string) Value {
+		in.ensureSched().yield("atomic:" + site)
+		f := apField(a, site)
+		in.raceAtomic(f, true, site)
+		old := apGet(f)
+		if in.e.Branch(in.valueEq(old, a[1]), "cas:"+site) {
+			f.(*Cell).v = a[2]
+			return tTrue
+		}
+		return tFalse
 	})
 
 	// sync/atomic primitives (sequentially consistent; each is a visible operation)
@@ -225,21 +293,25 @@ func registerSyncIntrinsics(reg regFn) {
 		ty := ty
 		reg("sync/atomic.Load"+ty, func(in *Interp, fr *frame, fn *ssa.Function, a []Value, site string) Value {
 			in.ensureSched().yield("atomic:" + site)
+			in.raceAtomic(a[0], false, site)
 			return load(a[0])
 		})
 		reg("sync/atomic.Store"+ty, func(in *Interp, fr *frame, fn *ssa.Function, a []Value, site string) Value {
 			in.ensureSched().yield("atomic:" + site)
+			in.raceAtomic(a[0], true, site)
 			store(a[0], a[1])
 			return nil
 		})
 		reg("sync/atomic.Swap"+ty, func(in *Interp, fr *frame, fn *ssa.Function, a []Value, site string) Value {
 			in.ensureSched().yield("atomic:" + site)
+			in.raceAtomic(a[0], true, site)
 			old := load(a[0])
 			store(a[0], a[1])
 			return old
 		})
 		reg("sync/atomic.CompareAndSwap"+ty, func(in *Interp, fr *frame, fn *ssa.Function, a []Value, site string) Value {
 			in.ensureSched().yield("atomic:" + site)
+			in.raceAtomic(a[0], true, site)
 			old := load(a[0])
 			eq := in.valueEq(old, a[1])
 			if in.e.Branch(eq, "cas:"+site) {
@@ -251,16 +323,19 @@ func registerSyncIntrinsics(reg regFn) {
 		if ty != "Pointer" {
 			reg("sync/atomic.Add"+ty, func(in *Interp, fr *frame, fn *ssa.Function, a []Value, site string) Value {
 				in.ensureSched().yield("atomic:" + site)
+				in.raceAtomic(a[0], true, site)
 				nv := Add(load(a[0]).(*Term), a[1].(*Term))
 				store(a[0], nv)
 				return nv
 			})
 			reg("sync/atomic.And"+ty, func(in *Interp, fr *frame, fn *ssa.Function, a []Value, site string) Value {
+				in.raceAtomic(a[0], true, site)
 				old := load(a[0]).(*Term)
 				store(a[0], BvAnd(old, a[1].(*Term)))
 				return old
 			})
 			reg("sync/atomic.Or"+ty, func(in *Interp, fr *frame, fn *ssa.Function, a []Value, site string) Value {
+				in.raceAtomic(a[0], true, site)
 				old := load(a[0]).(*Term)
 				store(a[0], BvOr(old, a[1].(*Term)))
 				return old
